@@ -23,15 +23,80 @@ import copy
 import os
 
 _PINNED = None
+_PINNED_META = None
+
+
+def _load_pinned():
+    global _PINNED, _PINNED_META
+    if _PINNED is None:
+        p = os.path.join(os.path.dirname(os.path.abspath(__file__)), 'pinned_functions.txt')
+        meta = {}
+        with open(p) as f:
+            for l in f:
+                l = l.rstrip('\n')
+                if not l.strip():
+                    continue
+                parts = l.split('\t')
+                meta[parts[0]] = (parts[1].split(',') if len(parts) > 1 and parts[1] else [], int(parts[2]) if len(parts) > 2 else 0)
+        _PINNED, _PINNED_META = set(meta), meta
 
 
 def pinned_functions():
-    global _PINNED
-    if _PINNED is None:
-        p = os.path.join(os.path.dirname(os.path.abspath(__file__)), 'pinned_functions.txt')
-        with open(p) as f:
-            _PINNED = {l.strip() for l in f if l.strip()}
+    _load_pinned()
     return _PINNED
+
+
+def undo_renames(modules, log=None):
+    """A function of the reference layout that is gone while a new one with the same parameters (and a body of similar size) appeared
+    in the same scope was renamed: the old name is restored in the in-memory tree (definition and every reference in the package), so
+    that the rules find their anchor.  Only unambiguous pairs are taken; anything else is left alone (the anchor lookup then fails as an
+    analysis error, never as a verdict)."""
+    _load_pinned()
+    renames = {}
+    for mname, m in modules.items():
+        scopes = [(None, [st for st in m.tree.body if isinstance(st, ast.FunctionDef)])]
+        for st in m.tree.body:
+            if isinstance(st, ast.ClassDef):
+                scopes.append((st.name, [s2 for s2 in st.body if isinstance(s2, ast.FunctionDef)]))
+        for cname, defs in scopes:
+            prefix = f'{mname}:' + (f'{cname}.' if cname else '')
+            pinned_here = {fq[len(prefix):] for fq in _PINNED if fq.startswith(prefix) and '.' not in fq[len(prefix):]}
+            present = {d.name: d for d in defs}
+            missing = sorted(pinned_here - set(present))
+            new = sorted(n for n in present if n not in pinned_here and not (n.startswith('__') and n.endswith('__')))
+            if not missing or not new:
+                continue
+            for old in missing:
+                params, size = _PINNED_META[prefix + old]
+                cands = []
+                for n in new:
+                    d = present[n]
+                    a = d.args
+                    ps = [x.arg for x in a.posonlyargs + a.args] + ([a.vararg.arg] if a.vararg else []) + [x.arg for x in a.kwonlyargs] + ([a.kwarg.arg] if a.kwarg else [])
+                    sz = sum(1 for x in ast.walk(d) if isinstance(x, ast.stmt)) - 1
+                    if len(ps) == len(params) and abs(sz - size) <= max(3, size // 2):
+                        cands.append((ps == params, n))
+                exact = [n for (e, n) in cands if e]
+                pick = exact if len(exact) == 1 else ([n for (_, n) in cands] if len(cands) == 1 else [])
+                if len(pick) == 1 and pick[0] not in renames:
+                    renames[pick[0]] = old
+                    new.remove(pick[0])
+    if not renames:
+        return False
+    for m in modules.values():
+        for n in ast.walk(m.tree):
+            if isinstance(n, ast.FunctionDef) and n.name in renames:
+                n.name = renames[n.name]
+            elif isinstance(n, ast.Name) and n.id in renames:
+                n.id = renames[n.id]
+            elif isinstance(n, ast.Attribute) and n.attr in renames:
+                n.attr = renames[n.attr]
+            elif isinstance(n, ast.alias) and n.name in renames and n.asname is None:
+                n.name = renames[n.name]
+    if log is not None:
+        for k, v in sorted(renames.items()):
+            log.append(f'function `{k}` taken for the renamed `{v}` of the reference layout')
+    return True
 
 
 LOOPS = (ast.For, ast.While, ast.AsyncFor)
@@ -316,6 +381,8 @@ class Inliner:
     # ---------------------------------------------------------------- expansion
     def _expand(self, h, call, recv, mode, targets=None):
         """statements replacing the call; mode in {'assign','return','expr','gen'}"""
+        if self.counter > 400:
+            return None          # mutually recursive new helpers: stop expanding, analyse the rest as separate functions
         self.counter += 1
         tag = f'__i{self.counter}'
         params = list(h.params)
